@@ -63,7 +63,8 @@ Theorem C17_fine_refines : forall (T : Type) (v0 : T) (ops : list (fop T)),
   fwf false ops = true ->
   let p := fst (frun (cp_new v0) ops) in
   let r := fold_left fref_step ops {| fr_base := v0; fr_over := None; fr_staged := None |} in
-  cp_read p = (match fr_over r with Some o => o | None => fr_base r end) /\ cp_marshal p = fr_base r.
+  cp_read p = (match fr_over r with Some o => o | None => fr_base r end) /\
+  cp_marshal p = (match fr_staged r with Some v => v | None => fr_base r end).
 Proof. exact @fine_refines_lemma. Qed.
 Print Assumptions C17_fine_refines.
 
@@ -83,14 +84,14 @@ Theorem C17_cfg_roundtrip :
 Proof. exact cfg_roundtrip_lemma. Qed.
 Print Assumptions C17_cfg_roundtrip.
 
-(* ... and with no override in force, exactly the same effective settings. *)
+(* ... and with no override in force (and no update in flight), exactly the same effective settings. *)
 Theorem C17_cfg_roundtrip_same :
   forall (lib_enc : fkind -> fval -> str) (lib_dec : fkind -> str -> res fval)
          (verify : list (fkind * fval) -> bool) (lib_valid : fkind -> fval -> Prop),
   (forall k v, k <> KSize -> lib_valid k v -> lib_dec k (lib_enc k v) = Ok v) ->
   forall c : config,
   Forall (field_valid lib_valid) (bases c) -> verify (bases c) = true ->
-  (forall kp, In kp c -> o_over (c_committed (snd kp)) = None) ->
+  (forall kp, In kp c -> o_over (c_committed (snd kp)) = None /\ c_staged (snd kp) = None) ->
   exists c', load lib_dec verify (persist lib_enc c) = Ok c' /\ effective c' = effective c.
 Proof. exact cfg_roundtrip_same. Qed.
 Print Assumptions C17_cfg_roundtrip_same.
